@@ -73,6 +73,7 @@ type Chan struct {
 	Elem   types.Type
 
 	pendingSend bool
+	recvWait    int // goroutines blocked waiting to receive (rendezvous for select-send on unbuffered channels)
 }
 
 func (s Str) Len() int {
